@@ -23,7 +23,7 @@ REPORT_COUNTERS = ['programs', 'predicates', 'ok', 'mismatch', 'explained_by_kno
 
 def plan(tier, seed):
   return {'nshards': 16, 'timeout_s': 5400 if tier == 'thorough' else 1200,
-          'params': {'n_programs': 1800 if tier == 'thorough' else 45}}
+          'params': {'n_programs': 300 if tier == 'thorough' else 45}}
 
 
 def features_for(i):
